@@ -15,7 +15,7 @@ def generate(rng: random.Random, tier: str):
     n = 30 if tier == 'thorough' else 6
     cases = [zoo.gen_config(kind, rng) for kind in zoo.EXACT_KINDS for _ in range(n * (2 if kind in ('cartsamp',) else 1))]
     for kind in zoo_kernels.KERNEL_KINDS:
-        cases += [zoo_kernels.gen_config(kind, rng) for _ in range(max(2, n // 2))]
+        cases += zoo_kernels.gen_configs(kind, rng, max(2, n // 2))
     return cases
 
 
@@ -47,6 +47,9 @@ def run_kernel(cfg) -> Outcome:
             viol = viol or {'signature': f'linearity:{cfg["kind"]}:{which}', 'what': f'{cfg} {which}: A(ax+by) != aA(x)+bA(y) (rel dev {float((lhs - rhs).abs().max()) / scale:.2e})'}
         if bool((fn(torch.zeros(shape, dtype=dt))[0] != 0).any()):
             viol = viol or {'signature': f'linearity:{cfg["kind"]}:{which}:zero', 'what': f'{cfg} {which}: A(0) != 0'}
+        v = _ops.scale_sweep(fn, x / max(1e-30, float(x.abs().max())), y / max(1e-30, float(y.abs().max())), tol)
+        if v:
+            viol = viol or {'signature': f'linearity:{cfg["kind"]}:{which}:scale', 'what': f'{cfg} {which}: {v}'}
         M = zoo_kernels.dense(fn, shape, single=single)
         got = fn(x)[0].reshape(-1).to(M.dtype)
         want = M @ x.reshape(-1).to(M.dtype)
